@@ -13,6 +13,7 @@ import numpy as np
 
 from mon import core, mw
 from mon.props import _rayscene as rs
+from mon.props import _renderfam as rf
 
 ID = "C35"
 LEVEL = "exploration"
@@ -21,8 +22,15 @@ RULE = (
   "bodies), 1-3 cameras of kinds fovy / intrinsic (focal, sensorsize, principal) / orthographic, fixed in the world or on a "
   "mocap body tracking another body; 1-4 worlds with different qpos / mocap poses; resolution from 8x8 to 64x64; "
   "use_precomputed_rays on/off (off: per-world cam_fovy); enable_backface_culling on/off; enabled_geom_groups variants; "
-  "per-camera render_depth / render_seg flags and cam_active subsets. Non-trivial: >=200 judged pixels with hits on >=3 geom "
-  "types; distinct by hash(xml, qpos, options)."
+  "per-camera render_depth / render_seg flags and cam_active subsets. On top (mon/props/_renderfam.py, stratified by the case "
+  "index so every run has every class): the plane's size class (infinite along x only / y only, by 0 or by a negative size; "
+  "both negative; small; long finite strip; large), an extra wall plane in the world or on the mocap body, needle / disc / "
+  "plate / beam / tiny / big primitives, big primitives 15-70 units away, an elongated mesh, long / tall / flat / thick-based "
+  "hfield, one extra camera (far with narrow fovy / low and grazing over the plane to the horizon / inside the scene / exactly "
+  "axis-aligned with odd resolution / inside the bounding box of a diagonal beam), the whole scene translated 20-120 units from "
+  "the origin, per-world Model variants (geom_size incl. the plane class, geom_dataid+geom_pos/quat of moving mesh geoms), and "
+  "rendering without refit_bvh with all worlds at the pose the context was built at. Non-trivial: >=200 judged pixels with hits "
+  "on >=3 geom types; distinct by hash(xml, qpos, options)."
 )
 ASSUMPTIONS = [
   "MuJoCo 3.13 C mj_multiRay / mj_ray / mju_rayGeom / mj_rayMesh / mj_rayHfield (float64) give the nearest hit; the pixel ray is taken from MuJoCo's GL camera frustum (mjv_updateScene: frustum_center/width/bottom/top/near, orthographic) at pixel centres",
@@ -32,6 +40,10 @@ ASSUMPTIONS = [
   "depth bound 1e-4*max(1,dist,|origin|) + 50*measured reference noise, violation above 30x; a signature is reported only if >=2 pixels of the case show it (single isolated pixels are tallied)",
   "hits farther than 100 length units (50x the scene extent) are outside the judged domain",
   "intrinsic cameras whose sensor aspect differs from the image aspect are a separate diagnostic tier (MuJoCo stretches, MJWarp crops)",
+  "refit_bvh may be skipped only while every world is at the pose create_render_context built the scene BVH at (qpos0, default mocap pose) and the Model is not batched",
+  "a mismatching pixel on a plane / primitive is attributed by running MJWarp's own per-geom ray function (ray.ray_geom, float32, no BVH) on the pixel ray and 12 copies perturbed by +-2 float32 ulps against the float64 per-geom reference on the same rays (which must itself be stable): if that function already disagrees the signature is raygeom:float32-unstable:<type>[regime], otherwise the geom was lost by the scene BVH / traversal / shading path (seg:miss, seg:geomid, depth signatures)",
+  "mismatching pixels whose ray passes within 1.5 bounding radii of a sphere / capsule / cylinder / ellipsoid whose smallest size parameter is below 5e-3 x its distance from the camera are all reported under the one signature raygeom:float32-cancellation[min size<5e-3*distance] (float32 discriminant of the quadratic ray formulas), whatever their appearance (hole, phantom, wrong depth)",
+  "per-world Model variants batch geom_size, geom_dataid, geom_pos, geom_quat, geom_rbound only; a world whose MJWarp geom frames differ from its per-world reference model is not judged",
 ]
 BUDGET = {"quick": 150, "thorough": 1500}
 
@@ -108,6 +120,48 @@ def hfield_nontop(mjm, mjd, g, org, dirs, dist, nrm):
   return (np.abs(nl[:, 2]) < 1e-6) | (nl[:, 2] < -0.999) | (hz <= 1e-7)
 
 
+GTI = mujoco.mjtGeom
+# number of size parameters of the geom types MJWarp's ray_geom handles
+NSIZE = {int(GTI.mjGEOM_PLANE): 2, int(GTI.mjGEOM_SPHERE): 1, int(GTI.mjGEOM_CAPSULE): 2, int(GTI.mjGEOM_ELLIPSOID): 3, int(GTI.mjGEOM_CYLINDER): 2, int(GTI.mjGEOM_BOX): 3}
+_KERNEL = {}
+HOSTILE = 5e-3
+HOSTILE_SIG = "raygeom:float32-cancellation[min size<5e-3*distance]"
+
+
+def own_raygeom(wp, pos, mat, size, gt, pnt, vec):
+  """Distance returned by MJWarp's own per-geom ray function (ray.ray_geom, float32, no BVH) for n (geom, ray) pairs."""
+  if "k" not in _KERNEL:
+    from mujoco_warp._src import ray as mray
+
+    @wp.kernel
+    def _own_raygeom(pos: wp.array[wp.vec3], mat: wp.array[wp.mat33], size: wp.array[wp.vec3], gt: wp.array[int], pnt: wp.array[wp.vec3], vec: wp.array[wp.vec3], out: wp.array[float]):
+      i = wp.tid()
+      dd, nn = mray.ray_geom(pos[i], mat[i], size[i], pnt[i], vec[i], gt[i])
+      out[i] = dd
+
+    _KERNEL["k"] = _own_raygeom
+  n = len(gt)
+  out = wp.zeros(n, dtype=float)
+  f = lambda a: np.ascontiguousarray(a, dtype=np.float32)  # noqa: E731
+  wp.launch(
+    _KERNEL["k"],
+    dim=n,
+    inputs=[wp.array(f(pos), dtype=wp.vec3), wp.array(f(mat).reshape(n, 3, 3), dtype=wp.mat33), wp.array(f(size), dtype=wp.vec3), wp.array(np.ascontiguousarray(gt, dtype=np.int32), dtype=int), wp.array(f(pnt), dtype=wp.vec3), wp.array(f(vec), dtype=wp.vec3)],
+    outputs=[out],
+  )
+  return out.numpy()
+
+
+def default_state(mjm, like):
+  """The pose mjw.create_render_context builds its scene BVH at (qpos0, default mocap pose)."""
+  mjd = mujoco.MjData(mjm)
+  st = {k: np.array(v, copy=True) for k, v in like.items()}
+  st["qpos"] = np.array(mjm.qpos0, dtype=np.float32)
+  st["mocap_pos"] = np.array(mjd.mocap_pos, dtype=np.float32).reshape(mjm.nmocap, 3)
+  st["mocap_quat"] = np.array(mjd.mocap_quat, dtype=np.float32).reshape(mjm.nmocap, 4)
+  return st
+
+
 def run_case(case):
   import warp as wp
 
@@ -125,6 +179,17 @@ def run_case(case):
   groups = GROUPSETS[int(rng.integers(len(GROUPSETS)))]
   # scene: camera i uses kinds[i]; intrinsic cameras get the resolution they are rendered at
   xml, info = rs.make_scene(seed, ncam=ncam, p_invisible=0.0, all_groups_have_types=True, cam_opts={"kinds": kinds, "res_list": res, "p_aspect_mismatch": 0.25}, max_extra=5)
+  # special-size / special-place families (own random stream; stratified by the case index)
+  idx = seed % 100000 + 5 * (seed // 100000)
+  rng2 = np.random.default_rng(seed * 3 + 977)
+  xml, fam, special, xcam, offset = rf.specialise(xml, info, idx, ncam, rng2)
+  if xcam is not None:
+    kinds.append(xcam[1])
+    res.append(xcam[2])
+    info["cams"].append((xcam[0], xcam[1], "world-special"))
+    ncam += 1
+  norefit = idx % 8 == 7  # all worlds stay at the pose the render context was created with; refit_bvh is not called
+  want_variant = idx % 4 == 2 and nworld > 1
   try:
     mjm = mujoco.MjModel.from_xml_string(xml)
   except Exception as e:  # noqa
@@ -139,7 +204,42 @@ def run_case(case):
   order = [int(mujoco.mj_id2name(mjm, mujoco.mjtObj.mjOBJ_CAMERA, j)[3:]) for j in range(mjm.ncam)]
   kinds = [kinds[k] for k in order]
   res = [res[k] for k in order]
+  xcam_id = order.index(ncam - 1) if xcam is not None else -1
   states = [rs.sample_pose(mjm, rng, cam_shell=True) for _ in range(nworld)]
+  if norefit:
+    states = [default_state(mjm, states[0]) for _ in range(nworld)]
+  elif offset is not None:
+    for st in states:
+      for j in range(mjm.njnt):
+        if mjm.jnt_type[j] == mujoco.mjtJoint.mjJNT_FREE:
+          a = mjm.jnt_qposadr[j]
+          st["qpos"][a : a + 3] = (st["qpos"][a : a + 3].astype(np.float64) + offset).astype(np.float32)
+      st["mocap_pos"] = (st["mocap_pos"].astype(np.float64) + offset[None]).astype(np.float32)
+
+  # per-world Model variants: geom sizes (plane size class included) and mesh ids differ between worlds
+  xml_w = [xml] * nworld
+  variant_on = False
+  if want_variant and not norefit:
+    mjms = [mjm]
+    for w in range(1, nworld):
+      xv, _ = rf.variant(xml, info, info["meshes"], rng2)
+      try:
+        mv = mujoco.MjModel.from_xml_string(xv)
+        same = mv.ngeom == mjm.ngeom and np.array_equal(mv.geom_type, mjm.geom_type) and np.array_equal(mv.body_pos, mjm.body_pos) and np.array_equal(mv.cam_pos, mjm.cam_pos)
+      except Exception:  # noqa
+        same = False
+      if same:
+        xml_w[w] = xv
+        mjms.append(mv)
+      else:
+        rec.count("variant_world_fell_back_to_base_model")
+        mjms.append(mjm)
+    m.geom_size = wp.array(np.stack([np.array(x.geom_size, dtype=np.float32) for x in mjms]), dtype=wp.vec3)
+    m.geom_dataid = wp.array(np.stack([np.array(x.geom_dataid, dtype=np.int32) for x in mjms]), dtype=int)
+    m.geom_pos = wp.array(np.stack([np.array(x.geom_pos, dtype=np.float32) for x in mjms]), dtype=wp.vec3)
+    m.geom_quat = wp.array(np.stack([np.array(x.geom_quat, dtype=np.float32) for x in mjms]), dtype=wp.quat)
+    m.geom_rbound = wp.array(np.stack([np.array(x.geom_rbound, dtype=np.float32) for x in mjms]), dtype=float)
+    variant_on = True
   d = mw.make_data(mjm, m, states)
 
   # per-world fovy (only meaningful when rays are computed in the kernel)
@@ -154,8 +254,9 @@ def run_case(case):
 
   # active cameras and per-camera outputs
   active = list(range(ncam))
-  if ncam >= 2 and rng.random() < 0.3:
-    active.remove(int(rng.integers(ncam)))
+  removable = [c for c in active if c != xcam_id]  # the special camera stays active
+  if len(active) >= 2 and rng.random() < 0.3:
+    active.remove(removable[int(rng.integers(len(removable)))])
   rdepth = [bool(rng.random() < 0.8) for _ in active]
   rseg = [bool(rng.random() < 0.8) or not rdepth[i] for i in range(len(active))]
   cam_res = [res[c] for c in active]
@@ -175,7 +276,8 @@ def run_case(case):
       use_precomputed_rays=precomputed,
       enable_backface_culling=bool(culling),
     )
-    mjw.refit_bvh(m, d, rc)
+    if not norefit:
+      mjw.refit_bvh(m, d, rc)
     mjw.render(m, d, rc)
   except (NotImplementedError, RuntimeError) as e:
     rec.rejected = f"rendering unavailable on this device: {type(e).__name__}: {e}"[:300]
@@ -185,6 +287,14 @@ def run_case(case):
   seg_all = rc.seg_data.numpy()
   depth_adr = rc.depth_adr.numpy()
   seg_adr = rc.seg_adr.numpy()
+  geom_xpos_all = d.geom_xpos.numpy()
+  geom_xmat_all = d.geom_xmat.numpy()
+  geom_size_all = m.geom_size.numpy()
+  special_tag = {}
+  for name, tag in special.items():
+    gid_ = mujoco.mj_name2id(mjm, mujoco.mjtObj.mjOBJ_GEOM, name)
+    if gid_ >= 0:
+      special_tag[int(gid_)] = tag
 
   gmask = np.zeros(6, np.uint8)
   gmask[groups] = 1
@@ -199,15 +309,24 @@ def run_case(case):
 
   for w in range(nworld):
     mjm_w = mjm
-    if batched_fovy:
-      mjm_w = mujoco.MjModel.from_xml_string(xml)
+    if batched_fovy or xml_w[w] is not xml:
+      mjm_w = mujoco.MjModel.from_xml_string(xml_w[w])
       mjm_w.cam_fovy[:] = fovy_w[w]
     mjd = mujoco.MjData(mjm_w)
     mw.apply_state_mj(mjm_w, mjd, states[w])
     mujoco.mj_kinematics(mjm_w, mjd)
     mujoco.mj_comPos(mjm_w, mjd)
     mujoco.mj_camlight(mjm_w, mjd)
+    if variant_on:
+      # harness guard: the batched Model fields must reproduce this world's geom frames, else nothing can be judged here
+      gx = geom_xpos_all[w]
+      if not np.allclose(gx, np.array(mjd.geom_xpos), atol=1e-4 * (1 + float(np.max(np.abs(gx)))), rtol=0):
+        rec.inconcl("per-world Model variant: geom frames of the batched model differ from the per-world reference model")
+        continue
     ref = rs.Ref(mjm_w, mjd)
+    gsize_w = np.array(mjm_w.geom_size)
+    gxpos_w = np.array(mjd.geom_xpos)
+    gxmat_w = np.array(mjd.geom_xmat).reshape(-1, 3, 3)
     for ai, c in enumerate(active):
       W, H = cam_res[ai]
       kind = kinds[c]
@@ -324,6 +443,13 @@ def run_case(case):
         ref_varies = len(np.unique(g0[stable])) > 1
         img_const = (got_seg is None or len(np.unique(got_seg[:, 0])) == 1) and (got_depth is None or np.ptp(got_depth) == 0)
         rec.check()
+        if img_const and not ref_varies and stable.any() and npx > 1:
+          # the reference is one geom over all stable pixels but the (constant) image shows something else, or the
+          # reference depth varies over the grid while the image depth does not: same mechanism
+          if got_seg is not None:
+            ref_varies = bool(np.any(np.where(g0[stable] >= 0, g0[stable], -1) != got_seg[0, 0]))
+          else:
+            ref_varies = bool(np.ptp(np.where(g0[stable] >= 0, d0[stable], 0.0)) > 1e-3)
         if ref_varies and img_const:
           flag("ortho:all-pixels-cast-the-same-ray", f"orthographic camera {c}: image is constant ({'seg ' + str(got_seg[0].tolist()) if got_seg is not None else 'depth ' + str(got_depth[0])}) although the reference hits {len(np.unique(g0[stable]))} different geoms over the {W}x{H} pixel grid (pixel origins are not offset in the image plane)", world=w, cam=int(c))
           flag("ortho:all-pixels-cast-the-same-ray", "second witness (same camera)", world=w, cam=int(c))
@@ -340,6 +466,41 @@ def run_case(case):
       njudged += nj
       rec.check(nj)
       rec.cover("pixels_judged:" + (tier or "perspective:"), nj)
+      # what the special-size families observed: judged pixels whose reference hit is a special geom
+      eg_ok = exp_g[ok_px]
+      for gid_, tag in special_tag.items():
+        cnt = int(np.sum(eg_ok == gid_))
+        if cnt:
+          rec.cover("special_hits:" + tag, cnt)
+      if w > 0 and variant_on:
+        differs = np.any(gsize_w != np.array(mjm.geom_size), axis=1) | (np.array(mjm_w.geom_dataid) != np.array(mjm.geom_dataid))
+        cnt = int(np.sum(differs[eg_ok[eg_ok >= 0]]))
+        if cnt:
+          rec.cover("special_hits:per-world-size-or-mesh(world>0)", cnt)
+      if xcam_id == c:
+        rec.cover("special_cam_pixels_judged:" + xcam[3], nj)
+        rec.cover("special_cam_pixels_hit:" + xcam[3], int(np.sum(eg_ok >= 0)))
+      if norefit:
+        rec.cover("pixels_judged:rendered-without-refit", nj)
+      if offset is not None:
+        rec.cover("pixels_judged:scene-far-from-origin", nj)
+      semi = np.zeros(npx, bool)  # reference hit on a plane that is infinite along exactly one axis
+      for g in np.nonzero(enabled & (gtype == rs.GT.mjGEOM_PLANE))[0]:
+        sel = ok_px[eg_ok == g]
+        if not len(sel):
+          continue
+        sz = gsize_w[g]
+        ninf = int(sz[0] <= 0) + int(sz[1] <= 0)
+        pname = ("finite", "semi-infinite", "infinite")[ninf] + (",negative-size" if min(sz[0], sz[1]) < 0 else "")
+        rec.cover("plane_hits:" + pname, len(sel))
+        lp = (org[sel] + exp_d[sel, None] * dirs[sel] - gxpos_w[g]) @ gxmat_w[g]
+        fin = max(sz[0], sz[1])
+        if ninf == 1:
+          semi[sel] = True
+          ax = 0 if sz[0] <= 0 else 1
+          rec.cover("plane_hits:semi-infinite:beyond-2x-finite-extent", int(np.sum(np.abs(lp[:, ax]) > 2 * fin)))
+        elif ninf == 0:
+          rec.cover("plane_hits:finite:outside-the-min-size-square", int(np.sum(np.max(np.abs(lp[:, :2]), axis=1) > min(sz[0], sz[1]))))
       for t in np.unique(cls[ok_px]):
         cnt = int(np.sum(cls[ok_px] == t))
         rec.cover("pixel_hits:" + t, cnt)
@@ -359,17 +520,105 @@ def run_case(case):
         if len(okr):
           rec.worst((tier or "") + "depth", float(np.max(np.where(okr <= VIOL, okr, 0))))
         bad |= ratio > 1
+      # float32-hostile neighbourhood: pixels whose ray passes within 1.5 bounding radii of a sphere / capsule / cylinder /
+      # ellipsoid whose smallest size parameter is below 5e-3 x its distance from the camera.  The quadratic ray formulas
+      # (b*b - a*c in float32) lose their discriminant there; mismatches of such pixels are reported under one signature.
+      hostile = np.zeros(npx, bool)
+      thin_g = []  # quadratic-formula primitives whose smallest size is below 2e-2 x their distance (candidates for attribution)
+      if bad[ok_px].any():
+        for g in np.nonzero(enabled)[0]:
+          tg = int(gtype[g])
+          if tg not in NSIZE or tg in (int(GTI.mjGEOM_PLANE), int(GTI.mjGEOM_BOX)):
+            continue
+          rel = gxpos_w[g][None] - org
+          dist_c = np.linalg.norm(rel, axis=1)
+          smin_g = float(np.min(gsize_w[g][: NSIZE[tg]]))
+          if smin_g < 2e-2 * float(np.max(dist_c)):
+            thin_g.append(int(g))
+          small_g = smin_g < HOSTILE * dist_c
+          if small_g.any():
+            perp = np.linalg.norm(np.cross(rel, dirs), axis=1)
+            hostile |= small_g & (perp < 1.5 * float(mjm_w.geom_rbound[g]))
+      # mechanism discriminator for mismatching pixels whose reference hit is a plane / primitive: MJWarp's own per-geom
+      # ray function (float32, no BVH) on the same ray.  If that already misses, the ray function is the mechanism
+      # (signature raygeom:...); otherwise the geom was lost in the scene BVH / traversal (signature seg:miss:... etc.)
+      # (evaluated on the pixel ray and on 12 copies perturbed by +-2 float32 ulps: the renderer builds its own float32 ray)
+      # Queried: the reference's geom, and the geom the renderer reports instead (if it is an enabled plane / primitive).
+      bad_px, bad_g = [], []
+      for i in ok_px[bad[ok_px] & ~hfdev[ok_px]]:
+        gq = [int(exp_g[i])]
+        if got_seg is not None and got_seg[i, 0] != exp_g[i]:
+          gq.append(int(got_seg[i, 0]))
+        elif got_seg is None:
+          # depth-only camera: the geom the renderer hit is unknown; candidates are the thin / distant primitives
+          gq += [int(g) for g in thin_g if g != exp_g[i]]
+        for g in gq:
+          if 0 <= g < mjm.ngeom and enabled[g] and int(gtype[g]) in NSIZE:
+            bad_px.append(int(i))
+            bad_g.append(g)
+      own = {}
+      if bad_px:
+        NP = 13
+        gsel = np.tile(np.array(bad_g), NP)
+        o_, v_ = np.tile(org[bad_px], (NP, 1)), np.tile(dirs[bad_px], (NP, 1))
+        nb = len(bad_px)
+        o_[nb:], v_[nb:] = rs.perturb(o_[nb:], v_[nb:], prng, "ulp")
+        od = own_raygeom(wp, geom_xpos_all[w][gsel], geom_xmat_all[w][gsel], geom_size_all[w % len(geom_size_all)][gsel], gtype[gsel], o_, v_).reshape(NP, nb)
+        for k, i in enumerate(bad_px):
+          own.setdefault(i, []).append((bad_g[k], od[:, k], o_[k::nb], v_[k::nb]))
       for i in ok_px[bad[ok_px]]:
         px, py = int(i % W), int(i // W)
-        hc = cls[i]
+        hc = cls[i] + ("[semi-infinite]" if semi[i] else "")
         ctx = dict(world=w, cam=int(c), kind=kind, px=px, py=py, res=[W, H], ref_geom=int(exp_g[i]), ref_dist=float(exp_d[i]), ref_class=str(hc), culling=bool(culling), precomputed=bool(precomputed), groups=groups, camera_inside=inside)
         sg = got_seg[i].tolist() if got_seg is not None else None
         dp = float(got_depth[i]) if got_depth is not None else None
-        ctx.update(got_seg=sg, got_depth=dp)
+        ctx.update(got_seg=sg, got_depth=dp, families=fam, refit=not norefit, per_world_model=variant_on, ref_geom_size=(gsize_w[exp_g[i]].tolist() if exp_g[i] >= 0 else None))
         if hfdev[i]:
           flag("render:hfield-side-base-not-rendered", f"pixel ({px},{py}) cam {c}: reference nearest hit is the side wall / base of hfield geom {int(exp_g[i])} at {exp_d[i]:.5g}; renderer reports seg {sg} depth {dp}", **ctx)
           continue
         pre = tier + ("inside-cull:" if (inside and culling) else "")
+        attributed = False
+        for g_, do, op_, vp_ in own.get(int(i), []):
+          rds = np.array([ref.geom(g_, op_[k], vp_[k])[0] for k in range(len(do))])
+          rd = float(rds[0])
+          if inside and culling and g_ != exp_g[i] and rd >= 0:
+            continue  # with exit faces culled, another geom is attributed only if the reference misses it altogether
+          if (rd >= 0 and (np.any(rds < 0) or np.ptp(rds) > bound[i])) or (rd < 0 and np.any(rds >= 0)):
+            continue  # this geom's own silhouette: nothing can be attributed
+          if g_ == exp_g[i]:
+            # the reference's geom: its own ray function misses it or puts it elsewhere
+            own_wrong = bool(np.any(do < 0) or np.any(np.abs(do - rds) > VIOL * bound[i]))
+            dist_ = rd
+          else:
+            # the geom rendered instead: its own ray function reports a hit in front of the reference's nearest hit
+            # although this geom alone is missed by / lies behind that hit in the reference
+            limit = exp_d[i] - bound[i] if exp_g[i] >= 0 else np.inf
+            own_wrong = bool(np.any((do >= 0) & (do < limit))) and (rd < 0 or rd > limit)
+            dist_ = float(np.max(do)) if rd < 0 else rd
+          if own_wrong:
+            tn = rs.TYPE_NAMES[int(gtype[g_])]
+            gsz = gsize_w[g_][: NSIZE[int(gtype[g_])]]
+            # regime label: float32 cancellation in the quadratic ray formulas needs a thin or a distant geom
+            regime = ""
+            if int(gtype[g_]) not in (int(GTI.mjGEOM_PLANE), int(GTI.mjGEOM_BOX)) and float(np.min(gsz)) < 2e-2 * dist_:
+              regime = "[min size<2e-2*distance]"
+            ctx.update(own_ray_function_dists=do.tolist(), min_size_over_dist=float(np.min(gsz) / max(dist_, 1e-12)), min_over_max_size=float(np.min(gsz) / np.max(gsz)))
+            attributed = (
+              f"raygeom:float32-unstable:{tn}" + regime,
+              f"pixel ({px},{py}): MJWarp's own float32 ray function of {tn} geom {g_} (size {gsz.tolist()}) returns {do.tolist()} on this pixel ray and 12 copies of it perturbed by +-2 float32 ulps; float64 reference for this geom alone: {rd:.6g}; reference nearest hit: geom {int(exp_g[i])} at {exp_d[i]:.6g}; renderer reports seg {sg} depth {dp}",
+            )
+            break
+
+        def flagx(sig, msg, **data):
+          # a pixel that violates the oracle is reported under the ray-function signature when that mechanism was shown
+          if hostile[i]:
+            flag(HOSTILE_SIG, f"pixel ({px},{py}): the ray passes a sphere/capsule/cylinder/ellipsoid whose smallest size is below {HOSTILE:g} x its distance from the camera" + (" (shown: " + attributed[1] + ")" if attributed else "") + " {" + sig + ": " + msg + "}", **data)
+            rec.count("pixels_mismatch_in_float32_hostile_neighbourhood")
+          elif attributed:
+            flag(attributed[0], attributed[1] + " {" + sig + "}", **data)
+          else:
+            flag(sig, msg, **data)
+
         if sg is not None:
           gg = sg[0]
           if exp_g[i] < 0:
@@ -378,11 +627,11 @@ def run_case(case):
               if 0 <= gg < mjm.ngeom and not enabled[gg]:
                 flag(pre + "seg:disabled-group-geom-rendered", f"pixel ({px},{py}): geom {gg} of a disabled group rendered", **ctx)
               else:
-                flag(pre + f"seg:phantom:{tn}", f"pixel ({px},{py}): seg {sg} where the reference ray hits nothing", **ctx)
+                flagx(pre + f"seg:phantom:{tn}",f"pixel ({px},{py}): seg {sg} where the reference ray hits nothing", **ctx)
               continue
           else:
             if gg == -1:
-              flag(pre + f"seg:miss:{hc}", f"pixel ({px},{py}): background, reference hits {hc} geom {int(exp_g[i])} at {exp_d[i]:.6g}", **ctx)
+              flagx(pre + f"seg:miss:{hc}",f"pixel ({px},{py}): background, reference hits {hc} geom {int(exp_g[i])} at {exp_d[i]:.6g}", **ctx)
               continue
             if sg[1] != int(mujoco.mjtObj.mjOBJ_GEOM):
               flag(pre + "seg:objtype", f"pixel ({px},{py}): object type {sg[1]} for a geom hit", **ctx)
@@ -399,7 +648,7 @@ def run_case(case):
                 rec.count("pixels_tie_other_geom")
                 continue
               gt = rs.TYPE_NAMES[int(gtype[gg])]
-              flag(pre + f"seg:geomid:{hc}", f"pixel ({px},{py}): seg geom {gg} ({gt}, own distance {dg:.6g}); reference nearest is {hc} geom {int(exp_g[i])} at {exp_d[i]:.6g}", **ctx)
+              flagx(pre + f"seg:geomid:{hc}",f"pixel ({px},{py}): seg geom {gg} ({gt}, own distance {dg:.6g}); reference nearest is {hc} geom {int(exp_g[i])} at {exp_d[i]:.6g}", **ctx)
               continue
         if dp is not None:
           want = float(exp_d[i] * cosv[i]) if exp_g[i] >= 0 else 0.0
@@ -409,7 +658,7 @@ def run_case(case):
             kindsig = "depth"
             if exp_g[i] >= 0 and abs(dp - exp_d[i]) <= bound[i] and cosv[i] < 0.999:
               kindsig = "depth:euclidean-not-planar"
-            flag(pre + f"{kindsig}:{hc}", f"pixel ({px},{py}): depth {dp:.7g} vs reference planar depth {want:.7g} (dist {exp_d[i]:.7g} x cos {cosv[i]:.5g}), bound {bound[i]:.3g}", **ctx)
+            flagx(pre + f"{kindsig}:{hc}",f"pixel ({px},{py}): depth {dp:.7g} vs reference planar depth {want:.7g} (dist {exp_d[i]:.7g} x cos {cosv[i]:.5g}), bound {bound[i]:.3g}", **ctx)
           elif r_ > 1:
             rec.count("pixels_depth_greyzone")
 
@@ -449,9 +698,14 @@ def run_case(case):
   rec.cover("cam_active:" + ("subset" if len(active) < ncam else "all"), 1)
   for _, k, place in info["cams"]:
     rec.cover("camplace:" + place, 1)
+  for k, v in fam.items():
+    rec.cover(f"fam:{k}:{v}" if k in ("plane", "camera", "hfield", "offset") else f"fam:{k}", 1)
+  rec.cover("fam:refit:" + ("skipped(worlds at the context's build pose)" if norefit else "called"), 1)
+  if variant_on:
+    rec.cover("fam:per-world-model(geom_size,geom_dataid)", 1)
   if njudged >= 200 and len(judged_hit_types) >= 3:
     rec.nontrivial(xml, *[s["qpos"] for s in states], str((res, precomputed, culling, groups, active)))
-  rec.sample = {"scene_seed": seed, "ngeom": mjm.ngeom, "nworld": nworld, "cameras": [(kinds[c], list(res[c])) for c in active], "precomputed_rays": precomputed, "culling": bool(culling), "groups": groups, "pixels_judged": njudged, "hit_types": sorted(judged_hit_types)}
+  rec.sample = {"scene_seed": seed, "ngeom": mjm.ngeom, "nworld": nworld, "cameras": [(kinds[c], list(res[c])) for c in active], "precomputed_rays": precomputed, "culling": bool(culling), "groups": groups, "pixels_judged": njudged, "hit_types": sorted(judged_hit_types), "families": fam, "refit": not norefit, "per_world_model": variant_on}
   return rec.result()
 
 
@@ -466,6 +720,39 @@ def requirements(agg, tier):
       unmet.append(f"configuration never exercised: {k}")
   if cov.get("pixels_judged:perspective:", 0) < 20000:
     unmet.append("fewer than 20000 judged perspective pixels")
+  # the special-size / special-place families must have observed something (judged pixels whose reference hit is such a geom)
+  import os
+
+  if os.environ.get("C35_DUMP_COVER"):
+    import json
+
+    with open(os.environ["C35_DUMP_COVER"], "w") as f:
+      json.dump({k: v for k, v in sorted(cov.items()) if isinstance(v, int)}, f, indent=1)
+
+  def total(prefix, contains=""):
+    return sum(v for k, v in cov.items() if k.startswith(prefix) and contains in k and isinstance(v, int))
+
+  big = tier != "quick"
+  need = [
+    ("plane_hits:semi-infinite:beyond-2x-finite-extent", "", 300, "judged pixels on a plane infinite along one axis, farther than 2*max(size) from its origin"),
+    ("plane_hits:semi-infinite", "", 1000, "judged pixels on planes infinite along exactly one axis"),
+    ("plane_hits:infinite", "", 300, "judged pixels on planes infinite along both axes"),
+    ("plane_hits:finite", "", 300, "judged pixels on finite planes"),
+    ("plane_hits:", "negative-size", 200, "judged pixels on planes whose infinite axis is given by a negative size"),
+    ("special_hits:plane2:", "", 200, "judged pixels on the extra wall / mocap-mounted plane"),
+    ("special_hits:shape:", "", 500, "judged pixels on needle / disc / plate / beam / tiny / big primitives"),
+    ("special_hits:far", "", 100, "judged pixels on big primitives 15-70 units away"),
+    ("special_hits:mesh:elongated", "", 20, "judged pixels on the elongated mesh"),
+    ("special_hits:hfield:", "", 50, "judged pixels on a long / tall / flat / thick-based hfield"),
+    ("special_hits:per-world-size-or-mesh(world>0)", "", 100, "judged pixels on geoms whose size / mesh differs from world 0's"),
+    ("pixels_judged:rendered-without-refit", "", 1000, "judged pixels rendered without refit_bvh (worlds at the build pose)"),
+    ("pixels_judged:scene-far-from-origin", "", 1000, "judged pixels of scenes translated far from the origin"),
+  ]
+  for mode in ("far", "low", "inside", "axis", "aabb"):
+    need.append(("special_cam_pixels_hit:" + mode, "", 100, f"judged hit pixels of the special camera placement '{mode}'"))
+  for prefix, contains, n, what in need:
+    if total(prefix, contains) < n * (5 if big else 1):
+      unmet.append(f"special family observed too little: fewer than {n * (5 if big else 1)} {what}")
   if agg["distinct"] < 15:
     unmet.append("fewer than 15 distinct non-trivial cases")
   return unmet
